@@ -52,10 +52,11 @@ def groups(tier, seed):
                 if tier == 'quick' and sum(sz) > (5 if sym == 'U1' and nsec == 2 else 4):
                     continue
                 gs.append({'kind': 'mask', 'sym': sym, 'sizes': list(sz), 'level': 1 if sum(sz) <= 4 else 2})
+    fact = []
     for sym in GC.SYMS:
         for fac in ('svd', 'eigh'):
-            gs.append({'kind': 'fact', 'sym': sym, 'fac': fac, 'level': 1})
-    return gs
+            fact.append({'kind': 'fact', 'sym': sym, 'fac': fac, 'level': 1})
+    return fact + gs     # the few factorisation groups first: a time cap then ends mask groups, not a whole clause
 
 
 def limit_grid(secs, tier):
